@@ -206,11 +206,15 @@ func runC08(rc *RunCtx, i int) {
 	// and its deadline arrive: a Flush call is a waiter that can always receive, so it must come
 	// back, with nil or an error, never hang
 	var flushReturned []*atomic.Bool
+	var flushNil atomic.Int32
+	flushersBehindWedge := useGate && gateHit.Load()
 	for k, n := 0, r.Range(0, 2); k < n; k++ {
 		fr := &atomic.Bool{}
 		flushReturned = append(flushReturned, fr)
 		go func() {
-			e.Flush(context.Background())
+			if e.Flush(context.Background()) == nil {
+				flushNil.Add(1)
+			}
 			fr.Store(true)
 		}()
 	}
@@ -408,6 +412,15 @@ func runC08(rc *RunCtx, i int) {
 		time.Sleep(25 * time.Millisecond)
 	}
 	rc.Res.Count("flush_callers_across_stop", int64(len(flushReturned)))
+	// These Flush calls were issued while the flush worker was already held inside a store call,
+	// so at the deadline they were all still waiting: each is a waiter that can receive, and what
+	// it receives after a deadline abort must be an error (nil would claim that everything
+	// accepted before it is durable, while the flushes ahead of it were abandoned).
+	if flushersBehindWedge && stopErr != nil && flushNil.Load() > 0 {
+		rc.Violate(i, "flush-caller-answered-nil-after-stop-deadline", "", fmt.Sprintf("%d Flush call(s) issued while the flush worker was held inside a store call (so still waiting when Stop returned %v) returned nil", flushNil.Load(), stopErr), map[string]any{"history": desc, "store_calls": tailCalls(env.log.Snapshot(), 30)})
+		led.close()
+		return
+	}
 	ops := led.snapshot()
 	for _, o := range ops {
 		o.collect(clock)
